@@ -91,6 +91,7 @@ func IntFromString(str string, base int) (Object, error) {
 	var ok bool
 	s := str
 	negative := false
+	sigil := false
 	convertBase := base
 
 	// Get rid of padding
@@ -133,6 +134,7 @@ func IntFromString(str string, base int) (Object, error) {
 			goto nosigil
 		}
 		s = s[2:]
+		sigil = true
 		if len(s) == 0 {
 			goto error
 		}
@@ -143,8 +145,9 @@ func IntFromString(str string, base int) (Object, error) {
 	}
 
 	// Detect leading zeros which Python doesn't allow using base 0
-	if base == 0 {
-		if len(s) > 1 && s[0] == '0' && (s[1] >= '0' && s[1] <= '9') {
+	// on decimal numbers other than zero ("0x01" and "00" are fine)
+	if base == 0 && !sigil {
+		if len(s) > 1 && s[0] == '0' && strings.Trim(s, "0") != "" {
 			goto error
 		}
 	}
